@@ -319,7 +319,7 @@ func TestVerifHostileSpacePull(t *testing.T) {
 		if res.Outcome == "panic" || res.Outcome == "hang" || res.Outcome == "alloc" {
 			field := ln.C.Op
 			if len(ln.C.Path) > 0 {
-				last := ln.C.Path[len(ln.C.Path)-1]
+				last := strings.TrimSuffix(ln.C.Path[len(ln.C.Path)-1], "@last")
 				field = strings.ToUpper(last[:1]) + last[1:]
 			}
 			site := res.Site
